@@ -34,11 +34,18 @@ type chargePoint struct {
 	extendedTriggerMessageHandler extendedtriggermessage.ChargePointHandler
 	secureFirmwareHandler         securefirmware.ChargePointHandler
 	certificateHandler            certificates.ChargePointHandler
-	confirmationHandler           chan ocpp.Response
-	errorHandler                  chan error
+	outcomeHandler                chan asyncOutcome
 	callbacks                     callbackqueue.CallbackQueue
 	stopC                         chan struct{}
 	errC                          chan error // external error channel
+}
+
+// asyncOutcome is the outcome of a request sent asynchronously: a response or an error.
+// Both travel on one channel: the callbacks are matched to the outcomes by order, so the order in which
+// the outcomes were reported must be the order in which they are handled.
+type asyncOutcome struct {
+	confirmation ocpp.Response
+	err          error
 }
 
 func (cp *chargePoint) error(err error) {
@@ -50,7 +57,7 @@ func (cp *chargePoint) error(err error) {
 // Callback invoked whenever a queued request is canceled, due to timeout.
 // By default, the callback returns a GenericError to the caller, who sent the original request.
 func (cp *chargePoint) onRequestTimeout(_ string, _ ocpp.Request, err *ocpp.Error) {
-	cp.errorHandler <- err
+	cp.outcomeHandler <- asyncOutcome{err: err}
 }
 
 // Errors returns a channel for error messages. If it doesn't exist it es created.
@@ -342,20 +349,15 @@ func (cp *chargePoint) SendRequestAsync(request ocpp.Request, callback func(conf
 func (cp *chargePoint) asyncCallbackHandler() {
 	for {
 		select {
-		case confirmation := <-cp.confirmationHandler:
+		case outcome := <-cp.outcomeHandler:
 			// Get and invoke callback
 			if callback, ok := cp.callbacks.Dequeue("main"); ok {
-				callback(confirmation, nil)
-			} else {
-				err := fmt.Errorf("no handler available for incoming response %v", confirmation.GetFeatureName())
+				callback(outcome.confirmation, outcome.err)
+			} else if outcome.err == nil {
+				err := fmt.Errorf("no handler available for incoming response %v", outcome.confirmation.GetFeatureName())
 				cp.error(err)
-			}
-		case protoError := <-cp.errorHandler:
-			// Get and invoke callback
-			if callback, ok := cp.callbacks.Dequeue("main"); ok {
-				callback(nil, protoError)
 			} else {
-				err := fmt.Errorf("no handler available for error %v", protoError.Error())
+				err := fmt.Errorf("no handler available for error %v", outcome.err.Error())
 				cp.error(err)
 			}
 		case <-cp.stopC:
